@@ -34,7 +34,8 @@ META = {
             "plan converted back by the real code is accepted by time-triggered validation.",
     "note": "Level is 'proof' for the forward direction and 'validated' for the back conversion. The partial-order plan produced by "
             "the deordering (C27) is an observed input of the model (captured by wrapping SequentialPlan.convert_to during the "
-            "call); the theorems hold for every forward edge list. epsilon <= minimal gap is a decidable hypothesis evaluated on "
+            "call); the theorems hold for every forward edge list; an independent oracle rebuilds what every event reads/writes and "
+            "checks that interfering events of different actions are ordered in that observed plan. epsilon <= minimal gap is a decidable hypothesis evaluated on "
             "every case (it can only fail with an explicit problem.epsilon). Plans outside C05's supported_plan side condition "
             "(an effect scheduled before its action's start, empty condition interval) and plans that do not respect an explicit "
             "problem.epsilon (extract_epsilon < problem.epsilon) are outside the quantifier and only counted. No axioms. "
